@@ -28,8 +28,8 @@ Theorem every_schedule_retry_waits_clean b sched t k l c m f p l' :
   holds_b (b_w s) t l' = true -> In l' (unit_of (shape_of sc c) l).
 Proof.
   intros W sc s PK BL CU RR HB.
-  pose proof (reach_GI_dec (blc09 sc) (blc09b sc) (blc09b_ok sc) false b sched W) as G.
-  change (run_sched_g false false) with run_sched in G. fold sc in G. fold s in G.
+  pose proof (reach_GI_dec (blc09 sc) (blc09b sc) (blc09b_ok sc) false false b sched W) as G.
+  change (run_sched_g false false false) with run_sched in G. fold sc in G. fold s in G.
   destruct (GI_blocked b _ _ _ t k l G PK BL) as [H [K [o [p' [A [CU' B]]]]]].
   rewrite CU in CU'. inversion CU'; subst o p'. cbn [blk_of] in B.
   unfold blc09 in B. rewrite RR in B.
